@@ -121,3 +121,57 @@ example : ChildAct.isDelete (updateAct ["name"] ["uid"] "Recreate"
     (.obj [("metadata", .obj [("name", .str "c")]), ("spec", .obj [("image", .str "v2")])])) = true := by decide
 
 end Mc.C06
+
+namespace Mc.C06
+
+/-- inversion: a delete is decided only under Recreate / RollingRecreate, for a child that differs and is not
+    pending deletion, and names the UID of the observed object -/
+theorem C06_delete_inv (mks sys : List String) (m : String) (obs des : J) (uid : String)
+    (h : updateAct mks sys m obs des = .delete uid) :
+    uid = getUID obs ∧ (m = "Recreate" ∨ m = "RollingRecreate") ∧
+    ∃ new, applyUpdate mks sys obs des = .ok new ∧ new.eqv obs = false ∧ isDeleting obs = false := by
+  unfold updateAct at h
+  split at h
+  · cases h
+  · rename_i new hnew
+    split at h
+    · cases h
+    · rename_i h1
+      split at h
+      · cases h
+      · rename_i h2
+        split at h
+        · cases h
+        · cases h
+        · cases h; exact ⟨rfl, Or.inl rfl, new, hnew, by simpa using h1, by simpa using h2⟩
+        · cases h; exact ⟨rfl, Or.inr rfl, new, hnew, by simpa using h1, by simpa using h2⟩
+        · cases h
+        · cases h
+        · cases h
+
+/-- inversion: an update is decided only under InPlace / RollingInPlace, for a child that differs and is not
+    pending deletion, and its body is the merged object -/
+theorem C06_update_inv (mks sys : List String) (m : String) (obs des body : J)
+    (h : updateAct mks sys m obs des = .update body) :
+    applyUpdate mks sys obs des = .ok body ∧ (m = "InPlace" ∨ m = "RollingInPlace") ∧
+    body.eqv obs = false ∧ isDeleting obs = false := by
+  unfold updateAct at h
+  split at h
+  · cases h
+  · rename_i new hnew
+    split at h
+    · cases h
+    · rename_i h1
+      split at h
+      · cases h
+      · rename_i h2
+        split at h
+        · cases h
+        · cases h
+        · cases h
+        · cases h
+        · cases h; exact ⟨hnew, Or.inl rfl, by simpa using h1, by simpa using h2⟩
+        · cases h; exact ⟨hnew, Or.inr rfl, by simpa using h1, by simpa using h2⟩
+        · cases h
+
+end Mc.C06
